@@ -16,6 +16,7 @@ RULE = ('pairs/triples of category values built from generated models (both feat
         'separately, or an erase set that removes some but not all features; distinct by case digest')
 
 
+@runner.guarded(PROPERTY)
 def check_case(case):
     """returns [(key, msg)]"""
     fails = []
@@ -164,15 +165,18 @@ def _sweep(ctx, shard, nshards, system, max_slashes):
     objs = [to_cat(m) for m in vals]
     n = len(vals)
     cnt = 0
+    blinds = [blind(m) for m in vals]
     for i in range(shard, n, nshards):
         mc, c = vals[i], objs[i]
-        bc = blind(mc)
-        hc = hash(c)
+        bc = blinds[i]
         for j in range(n):
             md, d = vals[j], objs[j]
             want = i == j
-            ok = ((c == d) is want and (not want or hc == hash(d))
-                  and bool(c ^ d) is (bc == blind(md)))
+            try:
+                ok = ((c == d) is want and (not want or hash(c) == hash(d))
+                      and bool(c ^ d) is (bc == blinds[j]))
+            except Exception:
+                ok = False
             cnt += 1
             if not ok:
                 case = {'kind': 'sweep', 'c': jsonable(mc), 'd': jsonable(md)}
